@@ -4,9 +4,9 @@ REPO=${REPO:-/repo}; export PZ_REPO=$REPO   # the batteries may be pointed at a 
 # named property's check to report a violation; then require silence on the restored tree.  /repo must be clean.
 if [ -n "$(git -C $REPO status --porcelain)" ]; then echo "REPO DIRTY - refusing"; exit 3; fi
 cd /verif
-declare -A PROP=( [af93168]="C18" [509bc53]="C11" [e912a11]="C12" [7203897]="C12" [3983467]="C12" [e9eab0f]="C10" [c0d9a18]="C11" [dff15cb]="C12" [01f6eb6]="C12" [9b31440]="C12" [e3ae179]="C12" [8e4d69d]="C12" [63ac85b]="C11" [614bd84]="C02" [59969d4]="C11" [2b225c0]="C02" [686d473]="C18" [e5ed23f]="C10" [a649160]="C11" [a964edc]="C11" [7647190]="C11" [7fe7718]="C17" [6f29d73]="C17" [bb2e779]="C17" [97e6ed3]="C18" [22768a5]="C19" [c90b8d3]="C19" [4eeffd2]="C19" [4779779]="C16" [3a4f11f]="C16" [9d05a07]="C16" [a9efc06]="C16" [42e2002]="C16" [ac396cb]="C10" [2ac01c0]="C10" [0c06582]="C12" [85c2e5f]="C12" [7f48e02]="C12" [84fe886]="C12" [c8f3f1c]="C12" [bcb7fff]="C12" [1af582f]="C12" [3f66f70]="C17" [f269555]="C02" [e183672]="C06" [bac249f]="C19" [5bfdf76]="C20" [71148b6]="C20" [6ce04d4]="C02" [ba701d5]="C05" [c39089b]="C04" [cebdde8]="C08" [91e6f24]="C07" [85c4d28]="C07" [8e34ff6]="C01" [a22d6d1]="C04" [ebc8c9f]="C03" [7e7f390]="C05" [0d76d89]="C17" [3320657]="C14" [659ef08]="C01" [7c2bb1e]="C12" [f3277d3]="C15" [c6e57d2]="C16" [ed3c8f4]="C16" [be7562f]="C10" [4474f8c]="C16" )
+declare -A PROP=( [af93168]="C18" [509bc53]="C11" [e912a11]="C12" [7203897]="C12" [3983467]="C12" [e9eab0f]="C10" [c0d9a18]="C11" [dff15cb]="C12" [01f6eb6]="C12" [9b31440]="C12" [e3ae179]="C12" [8e4d69d]="C12" [63ac85b]="C11" [614bd84]="C02" [59969d4]="C11" [2b225c0]="C02" [686d473]="C18" [e5ed23f]="C10" [a649160]="C11" [a964edc]="C11" [7647190]="C11" [7fe7718]="C17" [6f29d73]="C17" [bb2e779]="C17" [97e6ed3]="C18" [22768a5]="C19" [c90b8d3]="C19" [4eeffd2]="C19" [4779779]="C16" [3a4f11f]="C16" [9d05a07]="C16" [a9efc06]="C16" [42e2002]="C16" [ac396cb]="C10" [2ac01c0]="C10" [0c06582]="C12" [85c2e5f]="C12" [7f48e02]="C12" [84fe886]="C12" [c8f3f1c]="C12" [bcb7fff]="C12" [1af582f]="C12" [3f66f70]="C17" [f269555]="C02" [e183672]="C06" [bac249f]="C19" [5bfdf76]="C20" [71148b6]="C20" [6ce04d4]="C02" [ba701d5]="C05" [c39089b]="C04" [cebdde8]="C08" [91e6f24]="C07" [85c4d28]="C07" [8e34ff6]="C01" [a22d6d1]="C04" [ebc8c9f]="C03" [7e7f390]="C05" [0d76d89]="C17" [3320657]="C14" [659ef08]="C01" [7c2bb1e]="C12" [f3277d3]="C15" [c6e57d2]="C16" [ed3c8f4]="C16" [be7562f]="C10" [4474f8c]="C16" [73da185]="C19" )
 rc=0
-for c in ${ONLY:-af93168 509bc53 e912a11 7203897 3983467 e9eab0f c0d9a18 dff15cb 01f6eb6 9b31440 e3ae179 8e4d69d 63ac85b 614bd84 59969d4 2b225c0 686d473 e5ed23f a649160 a964edc 7647190 7fe7718 6f29d73 bb2e779 97e6ed3 22768a5 c90b8d3 4eeffd2 4779779 3a4f11f 9d05a07 a9efc06 42e2002 ac396cb 2ac01c0 0c06582 85c2e5f 7f48e02 84fe886 c8f3f1c bcb7fff 1af582f 3f66f70 f269555 e183672 bac249f 5bfdf76 71148b6 6ce04d4 ba701d5 c39089b cebdde8 91e6f24 85c4d28 8e34ff6 a22d6d1 ebc8c9f 7e7f390 0d76d89 3320657 659ef08 7c2bb1e f3277d3 c6e57d2 ed3c8f4 be7562f 4474f8c}; do
+for c in ${ONLY:-af93168 509bc53 e912a11 7203897 3983467 e9eab0f c0d9a18 dff15cb 01f6eb6 9b31440 e3ae179 8e4d69d 63ac85b 614bd84 59969d4 2b225c0 686d473 e5ed23f a649160 a964edc 7647190 7fe7718 6f29d73 bb2e779 97e6ed3 22768a5 c90b8d3 4eeffd2 4779779 3a4f11f 9d05a07 a9efc06 42e2002 ac396cb 2ac01c0 0c06582 85c2e5f 7f48e02 84fe886 c8f3f1c bcb7fff 1af582f 3f66f70 f269555 e183672 bac249f 5bfdf76 71148b6 6ce04d4 ba701d5 c39089b cebdde8 91e6f24 85c4d28 8e34ff6 a22d6d1 ebc8c9f 7e7f390 0d76d89 3320657 659ef08 7c2bb1e f3277d3 c6e57d2 ed3c8f4 be7562f 4474f8c 73da185}; do
   prop=${PROP[$c]}
   if ! git -C $REPO apply --check $PWD/selftest/reverts/$c.diff 2>/dev/null; then echo "$c $prop revert-does-not-apply"; rc=1; continue; fi
   git -C $REPO apply $PWD/selftest/reverts/$c.diff
